@@ -52,10 +52,22 @@ LINE = {
     'srv_AUTH': b'AUTH EXTERNAL 31303030',
     'srv_CANCEL': b'CANCEL',
     'srv_NEGOTIATE': b'NEGOTIATE_UNIX_FD',
+    # server lines with bytes >= 0x80 in or next to the command word: none of them is a protocol line.  The unchanged
+    # client lets a UnicodeDecodeError escape dataReceived for some of them - the reactor then drops the connection, which
+    # is a close; that exception is a don't-care HERE (and only here), everything else is judged as for any other line
+    'hb_OK_mid': b'O\xffK ' + GUID,
+    'hb_OK_lead': b'\x80OK ' + GUID,
+    'hb_OK_utf8': b'OK\xc3\xa9 ' + GUID,
+    'hb_AGREE': b'AGREE_UNIX_FD\xff',
+    'hb_ERROR': b'ERR\xe9OR',
+    'hb_REJECTED': b'REJECTED\xfe EXTERNAL',
+    'hb_DATA': b'\xc2\xa0DATA',
+    'hb_alone': b'\xff\xfe',
     'junk': b'HELLO there',
     'junk_lower': b'ok ' + GUID,
     'empty': b'',
 }
+HIBIT_WORDS = ['hb_OK_mid', 'hb_OK_lead', 'hb_OK_utf8', 'hb_AGREE', 'hb_ERROR', 'hb_REJECTED', 'hb_DATA', 'hb_alone']
 CLIENT_WORDS = ['srv_BEGIN', 'srv_BEGIN_arg', 'srv_AUTH', 'srv_CANCEL', 'srv_NEGOTIATE']
 IN_PROTOCOL = {'REJECTED', 'REJECTED_mechs', 'ERROR', 'ERROR_text', 'OK_guid', 'DATA', 'DATA_cookie', 'DATA_junkhex',
                'DATA_cookie_noid', 'DATA_cookie_noctx',
@@ -193,6 +205,9 @@ def run_lines(ctx, symbols, unix, case, split_rng=None):
         new = s.collect()
         hist.append((line, new, s.closed, s.p.auth_calls))
         ctx.distinct('state_pairs', (name, unix, was_closed, ok_read, tuple(offered[-1:]), negotiate_after_ok))
+        if s.ep.crashes and name in HIBIT_WORDS and isinstance(s.ep.crashes[0], UnicodeError) and not new:
+            ctx.count('hibit_lines_dropped_by_the_reactor')
+            break
         if s.ep.crashes:
             violation(None, 'client crashed with %r on server line %r' % (s.ep.crashes[0], line))
             break
@@ -596,6 +611,13 @@ def run(ctx):
                     for unix in (False, True):
                         run_lines(ctx, seq, unix, {'kind': 'seq', 'symbols': list(seq), 'unix': unix})
                         ctx.count('client_word_sequences')
+            for ln in (1, 2, 3):
+                for seq in itertools.product(SYMS + HIBIT_WORDS, repeat=ln):
+                    if seq[-1] not in HIBIT_WORDS:
+                        continue
+                    for unix in (False, True):
+                        run_lines(ctx, seq, unix, {'kind': 'seq', 'symbols': list(seq), 'unix': unix})
+                        ctx.count('hibit_sequences')
         # (b)
         if si == 0:
             for k in range(0, 4):
